@@ -16,64 +16,15 @@ namespace ShootVerif.Cli
     name in the list, a diagnostic is printed and no written file holds a bad name -/
 theorem C16_model_meets_spec (cmd : Cmd) (pkg : Pkg) (fl : Flags) (h : region cmd pkg fl = .WF) :
     ∃ s, spec cmd pkg fl = some s ∧ meets (run cmd pkg fl) s = true := by
-  rcases region_wf_cases h with ⟨hv, h⟩ | ⟨_, hgo, hnf⟩
-  · have v := validFacts hv
-    unfold regionValid at h
-    cases hm : mode fl with
-    | none => simp [hm] at h
-    | some md =>
-      cases md with
-      | file f sep =>
-        simp only [hm] at h
-        cases hin : (pkg.map File.name).contains f with
-        | true => exact file_mode_meets cmd pkg fl v hm hin
-        | false => rw [hin] at h; simp at h
-      | star sep =>
-        simp only [hm] at h
-        apply star_mode_meets cmd pkg fl v hm
-        by_cases he : (eligibleIn cmd pkg none).isEmpty = true
-        · exact Or.inl he
-        · right
-          simp only [he, Bool.false_eq_true, ↓reduceIte] at h
-          cases hg : (pkg.find? (fun f => f.comments.any (isDirective fl.cmdline))).map (·.name) with
-          | none => simp only [hg] at h; cases sep <;> simp at h
-          | some g0 =>
-            refine ⟨g0, rfl, ?_⟩
-            intro hs n hn
-            simp only [hg, hs, Bool.true_and] at h
-            by_cases hall : (eligibleIn cmd pkg none).all (fun n => fileOf pkg n == some g0) = true
-            · simp only [List.all_eq_true, beq_iff_eq] at hall
-              exact hall n hn
-            · simp [hall] at h
-      | named ns file =>
-        simp only [hm] at h
-        by_cases hnd : ns.Nodup
-        · simp only [hnd, decide_true, Bool.not_true, Bool.false_eq_true, ↓reduceIte] at h
-          have hfm : fileMissing pkg file = false := by
-            cases hx : fileMissing pkg file with
-            | false => rfl
-            | true => rw [hx] at h; simp at h
-          have hfile : ∀ g, file = some g → (pkg.map File.name).contains g = true := by
-            intro g hg
-            subst hg
-            simpa [fileMissing] using hfm
-          simp only [hfm, Bool.false_eq_true, ↓reduceIte] at h
-          by_cases hb : (ns.filter (fun n => !good cmd pkg file n)).isEmpty = true
-          · apply named_good_meets cmd pkg fl v hm hnd hfile
-            intro n hn
-            simp only [List.isEmpty_iff, List.filter_eq_nil_iff, Bool.not_eq_true', Bool.not_eq_false] at hb
-            exact hb n hn
-          · have hbad : ∃ n ∈ ns, good cmd pkg file n = false := by
-              cases hl : ns.filter (fun n => !good cmd pkg file n) with
-              | nil => simp [hl] at hb
-              | cons a r =>
-                have : a ∈ ns.filter (fun n => !good cmd pkg file n) := by simp [hl]
-                simp only [List.mem_filter, Bool.not_eq_true'] at this
-                exact ⟨a, this.1, this.2⟩
-            exact named_bad_meets cmd pkg fl v hm hnd hfile hbad
-        · simp [hnd] at h
+  rcases region_wf_cases h with ⟨hv, h⟩ | ⟨_, hgo, hnf⟩ | ⟨_, rfl, hl, h⟩
+  · exact valid_meets cmd pkg fl hv h
   · obtain ⟨bad, ns, f, _, hs, hm⟩ := named_notinfile_meets cmd pkg fl hgo hnf
     exact ⟨_, hs, hm⟩
+  · -- `new` on a package with function-local types / constants of predeclared types: decided on the package `new` sees
+    obtain ⟨s, hs, hm⟩ := valid_meets .new (stripNew pkg) fl (validPkg_strip hl) h
+    rw [spec_new_strip] at hs
+    rw [run_new_strip] at hm
+    exact ⟨s, hs, hm⟩
 
 /-- the success message lists exactly the written files, in sorted order (all inputs, no side condition) -/
 theorem C16_listed (cmd : Cmd) (pkg : Pkg) (fl : Flags) (w : List (OutName × List String))
@@ -158,12 +109,17 @@ theorem C16_ineligible_skipped (cmd : Cmd) (pkg : Pkg) (fl : Flags) (h : region 
     (w : List (OutName × List String)) (l : List OutName) (b : Bool) (hr : run cmd pkg fl = .done w l b)
     (f : String) (t : TSpec) (ht : (f, t) ∈ declared pkg) (hne : eligible cmd pkg t = false) :
     t.name ∉ w.flatMap (·.2) := by
-  obtain ⟨s, hs, hmeets⟩ := C16_model_meets_spec cmd pkg fl h
-  have hv : validPkg pkg = true := by
-    rcases region_wf_cases h with ⟨hv, _⟩ | ⟨_, hgo, hnf⟩
-    · exact hv
+  -- it suffices to look at a valid package: for `new` with function-local types, the package `new` sees
+  suffices H : ∀ pkg' : Pkg, validPkg pkg' = true → region cmd pkg' fl = .WF → run cmd pkg' fl = .done w l b →
+      (f, t) ∈ declared pkg' → eligible cmd pkg' t = false → t.name ∉ w.flatMap (·.2) by
+    rcases region_wf_cases h with ⟨hv, _⟩ | ⟨_, hgo, hnf⟩ | ⟨_, rfl, hl, h'⟩
+    · exact H pkg hv h hr ht hne
     · obtain ⟨bad, ns, f, hm, _, _⟩ := named_notinfile_meets cmd pkg fl hgo hnf
       exact absurd hm (hmode ns (some f))
+    · exact H (stripNew pkg) (validPkg_strip hl) (region_of_valid (validPkg_strip hl) h') (by rw [run_new_strip]; exact hr)
+        (by rw [declared_strip]; exact ht) (by rw [eligible_new_strip]; exact hne)
+  intro pkg hv h hr ht hne
+  obtain ⟨s, hs, hmeets⟩ := C16_model_meets_spec cmd pkg fl h
   have v := validFacts hv
   have hel : ∀ inFile, t.name ∉ eligibleIn cmd pkg inFile := by
     intro inFile hmem
@@ -237,16 +193,25 @@ theorem C16_names (cmd : Cmd) (pkg : Pkg) (fl : Flags) (h : region cmd pkg fl = 
     w = fs ∧ ∀ kv ∈ w,
       (∃ t f, kv.2 = [t] ∧ fileOf pkg t = some f ∧ kv.1 = ⟨stem f, some (comp t)⟩) ∨
       (∃ g ∈ pkg.map File.name, kv.1 = ⟨stem g, none⟩) := by
+  -- it suffices to look at a valid package: for `new` with function-local types, the package `new` sees
+  suffices H : ∀ pkg' : Pkg, validPkg pkg' = true → region cmd pkg' fl = .WF → run cmd pkg' fl = .done w l b →
+      spec cmd pkg' fl = some (.files fs) →
+      (w = fs ∧ ∀ kv ∈ w,
+        (∃ t f, kv.2 = [t] ∧ fileOf pkg' t = some f ∧ kv.1 = ⟨stem f, some (comp t)⟩) ∨
+        (∃ g ∈ pkg'.map File.name, kv.1 = ⟨stem g, none⟩)) by
+    rcases region_wf_cases h with ⟨hv, _⟩ | ⟨_, hgo, hnf⟩ | ⟨_, rfl, hl, h'⟩
+    · exact H pkg hv h hr hs
+    · obtain ⟨bad, ns, f, _, hs', _⟩ := named_notinfile_meets cmd pkg fl hgo hnf
+      rw [hs] at hs'; cases hs'
+    · have := H (stripNew pkg) (validPkg_strip hl) (region_of_valid (validPkg_strip hl) h') (by rw [run_new_strip]; exact hr)
+        (by rw [spec_new_strip]; exact hs)
+      simpa only [fileOf_strip, names_strip] using this
+  intro pkg hv h hr hs
   obtain ⟨b', hr'⟩ := C16_written_eq cmd pkg fl h fs hs
   rw [hr] at hr'
   cases hr'
   refine ⟨rfl, ?_⟩
   have hwf := region_wf_cases h
-  have hv : validPkg pkg = true := by
-    rcases hwf with ⟨hv, _⟩ | ⟨_, hgo, hnf⟩
-    · exact hv
-    · obtain ⟨bad, ns, f, _, hs', _⟩ := named_notinfile_meets cmd pkg fl hgo hnf
-      rw [hs] at hs'; cases hs'
   have v := validFacts hv
   -- an eligible name is declared in the file `fileOf` reports
   have hdecl : ∀ inFile n, n ∈ eligibleIn cmd pkg inFile → ∃ f, fileOf pkg n = some f ∧ (∀ g, inFile = some g → f = g) := by
@@ -257,8 +222,9 @@ theorem C16_names (cmd : Cmd) (pkg : Pkg) (fl : Flags) (h : region cmd pkg fl = 
     refine ⟨f, by simp [fileOf, findDecl_of_mem v hft], ?_⟩
     intro g hg; subst hg; simpa using hin
   have h : regionValid cmd pkg fl = .WF := by
-    rcases hwf with ⟨_, h'⟩ | ⟨hv', _⟩
+    rcases hwf with ⟨_, h'⟩ | ⟨hv', _⟩ | ⟨hv', _⟩
     · exact h'
+    · rw [hv] at hv'; cases hv'
     · rw [hv] at hv'; cases hv'
   unfold regionValid at h
   unfold spec at hs
@@ -437,8 +403,12 @@ example : validPkg wLocalPkg = false ∧
 
 /-- repaired in /repo 1819261 (`new` no longer descends into function bodies): the function-local struct `row` is unknown to
     `new` - named explicitly it is a missing type (diagnostic, exit 1, as the specification demands), and `-type=*` / `-file=`
-    pass it by -/
+    pass it by. For `new` a package with function-local types is in the well-formed region (decided on `stripNew pkg`, under
+    which model and specification of `new` are invariant), so `C16_model_meets_spec` and the other theorems cover it -/
 theorem C16_local_type_new_fixed :
+    region .new wLocalPkg { types := ["row"], cmdline := "shoot new -type=row" } = .WF ∧
+    region .new wLocalPkg { types := ["User", "row"], cmdline := "shoot new -type=User,row" } = .WF ∧
+    region .new wLocalPkg { file := "b.go", cmdline := "shoot new -file=b.go" } = .WF ∧
     run .new wLocalPkg { types := ["row"], cmdline := "shoot new -type=row" } = .stop .fatal ∧
     spec .new wLocalPkg { types := ["row"], cmdline := "shoot new -type=row" } = some (.rejected ["row"]) ∧
     meets (run .new wLocalPkg { types := ["row"], cmdline := "shoot new -type=row" }) (.rejected ["row"]) = true ∧
